@@ -4,6 +4,7 @@ import PV.Proofs.Subterm
 import PV.Proofs.SubstKeys
 import PV.Proofs.SubstCached
 import PV.Proofs.SyntaxBEq
+import PV.Generated.Substitutor
 /-
   C08 — substitution (`SubstitutionMapper` over `IdentityMapper`, model `substM`).
 -/
@@ -1033,5 +1034,37 @@ theorem cached_identical_cex :
       some (.call (.var "f") [.cse (.const (.int 1)) none "s", .cse (.const (.int 1)) none "s"],
         none) := by
   refine ⟨by rfl, by rfl, by rfl, by rfl⟩
+
+/-! ## The source of `pymbolic/mapper/substitutor.py` (T-gen) -/
+
+/-- **substitutor_source_current.**  `pymbolic/mapper/substitutor.py` of the working tree, re-read
+statement by statement on every run (`extract/substitutor.py`; any other statement shape is an
+extraction error), is what the model `substM` and the key kinds of `eval_subst_keys` were written
+against:
+
+* the mapper overrides exactly `map_variable`, `map_subscript`, `map_lookup`; each asks
+  `self.subst_func(expr)` FIRST and returns a non-`None` answer as it is (no recursion into the
+  replacement: replacements are not substituted again; a falsy replacement such as `0` IS a
+  replacement), otherwise a variable comes back unchanged and a subscript / look-up is traversed by
+  the identity mapper's handler (whose rows are the regenerated C04 table: `substM_table_step_current`);
+* `make_subst_func` looks the NODE up in the mapping (Python `==` / hash), and only for a
+  `Variable` that is not a key falls back to its NAME; anything else is "no replacement";
+* the memoizing mapper is `CachedIdentityMapper` in front of the same three handlers and overrides
+  neither the dispatch nor the cache key;
+* `substitute` works on a COPY of the caller's mapping, into which the keyword assignments are
+  merged (keywords override name keys; nothing is left behind in the caller's mapping), and by
+  default uses the memoizing mapper. -/
+theorem substitutor_source_current :
+    Generated.substitutorTable =
+      { handlers := [["map_lookup", "descend", "IdentityMapper", "map_lookup"],
+                     ["map_subscript", "descend", "IdentityMapper", "map_subscript"],
+                     ["map_variable", "leaf", "", ""]],
+        init := ["store"],
+        cachedInit := ["bases", "CachedIdentityMapper()", "SubstitutionMapper(subst_func)"],
+        cachedMro := ["CachedSubstitutionMapper", "CachedIdentityMapper", "CachedMapper",
+                      "SubstitutionMapper", "IdentityMapper", "Mapper"],
+        makeSubstFunc := ["by-node", "KeyError", "Variable:by-name", "KeyError:None", "else:None"],
+        substitute := ["CachedSubstitutionMapper", "none->empty", "copy", "update-kwargs", "apply"] } := by
+  decide
 
 end PV.C08
